@@ -464,6 +464,30 @@ def _work_modeliso(arg):
                                                        f'ModelIsotherm[{name}].{what} requested {R_[:2] if what.startswith("p") else R_[2:]}: {got.value if got.ok else got.brief()} '
                                                        f'but the same points converted from the stored representation are {exp2}',
                                                        {'model': name, 'params': params, 'requested': R_}, exp2, got.value if got.ok else got.brief()))
+    # arrays with missing entries (NaN): where an answer is returned, every valid entry has the value it has alone, in its own place
+    for fn_name, top in (('loading_at', both_ranges(m, name, params)[0]), ('pressure_at', both_ranges(m, name, params)[1])):
+        if not top > 0:
+            continue
+        base_x = numpy.array([0.05, 0.12, 0.3, 0.45, 0.6, 0.8]) * top
+        for gaps in ([1], [1, 3], [0, 2, 4], [4, 5]):
+            xg = base_x.copy()
+            xg[gaps] = numpy.nan
+            fn = getattr(iso, fn_name)
+            o = core.call(fn, xg.copy())
+            out['ev'] += 1
+            if not o.ok:
+                continue
+            got = numpy.atleast_1d(numpy.asarray(o.value, dtype=float)).reshape(-1)
+            valid = [i_ for i_ in range(len(xg)) if i_ not in gaps]
+            alone = [core.call(fn, float(base_x[i_])) for i_ in valid]
+            if not all(a_.ok for a_ in alone):
+                continue
+            out['nt'] += 1
+            want = numpy.array([float(numpy.asarray(a_.value).reshape(-1)[0]) for a_ in alone])
+            if got.shape != xg.shape or core.relerr(got[valid], want) > max(tol_for(name, 'pressure'), 1e-8):      # (what stands at the gaps themselves is not judged: some closed forms turn NaN into 0 there)
+                out['viol'].append(core.make_violation({'check': 'modelisotherm-array-with-gaps', 'model': name, 'fn': fn_name},
+                                                       f'ModelIsotherm[{name}].{fn_name}({xg}) = {got} but the valid entries alone give {want} (at positions {valid})',
+                                                       {'model': name, 'params': params, 'gaps': gaps}, want, got))
     return out
 
 
